@@ -25,7 +25,7 @@ ASSUMPTIONS = [
     "structured arrays are packed and their multi-byte fields share one declared order (precondition of the property)",
     "NumPy's dtype objects (descr, newbyteorder, byteorder, fields) are the real library's; array storage is modelled by vf.symnp/vf.symrec (conformance pass)",
 ]
-BOUNDS = {"quick": {"fields": "1..3 drawn from {i4, f8, i1, S3, f4(2,)}", "shape": "(), (2,), (1,2), (0,), (0,2)"},
+BOUNDS = {"quick": {"fields": "1..2 drawn from {i4, f8, i1, S3, f4(2,), i8(2,2)} (+ one 3-field descriptor case)", "shape": "(), (2,), (1,2), (0,), (0,2)"},
           "thorough": {"fields": "1..3 drawn from {i4, f8, i2, u1, S3, U2, f4(2,), i8(2,2)}", "shape": "(), (2,), (1,2)"}}
 EXPLORE_OPTS = {"max_paths": 20000}
 TIER_OPTS = {"quick": {"time_budget": 300}, "thorough": {"time_budget": 1500}}
@@ -41,7 +41,7 @@ KINDS = {
 
 def configs(tier):
     q = tier == "quick"
-    kinds = ("i4", "f8", "i1", "S3", "f4s") if q else ("i4", "f8", "i2", "u1", "S3", "f4s", "i8s")
+    kinds = ("i4", "f8", "i1", "S3", "f4s", "i8s") if q else ("i4", "f8", "i2", "u1", "S3", "f4s", "i8s")
     out = []
     # plain arrays: every spelling for the predicates and the converters
     for k in (("i4", "f8", "i1", "S3") if q else ("i4", "f8", "i2", "i1", "u1", "S3")):
